@@ -379,6 +379,10 @@ func (cacheStream) Generate(rng *rand.Rand, tier string, emit func(Case)) {
 				}
 				emit(Case{"op": "inject", "layout": lm, "req": hxList(long), "niloci": false, "ocikind": rng.Intn(3)})
 			}
+			if i%4 == 2 && k == 0 && len(l.Dirs) > 1 {
+				// the same request on a cache that first had the directories in another order
+				emit(Case{"op": "inject", "layout": lm, "req": hxList(req), "niloci": false, "ocikind": rng.Intn(3), "predirs": []string{"reverse", "rotate", "dup"}[rng.Intn(3)], "auto": rng.Intn(2) == 0})
+			}
 			if i%4 == 0 && k == 0 {
 				// the same request on an auto-refresh cache that was created before the directories existed: the
 				// injection itself has to notice them and refresh
@@ -815,6 +819,12 @@ func (cacheStream) Execute(c Case) {
 				cacheStream{}.Execute(sp)
 				spawned = append(spawned, sp)
 			}
+			// every listed device on a cache that first had the directories reversed
+			if dl, _ := c["layout"].(map[string]any); dl != nil && len(devs) > 0 {
+				sp := Case{"stream": "cache", "op": "inject", "layout": c["layout"], "req": hxList(devs), "niloci": false, "ocikind": 2, "predirs": "reverse"}
+				cacheStream{}.Execute(sp)
+				spawned = append(spawned, sp)
+			}
 			// every listed device through an auto-refresh cache that was created while no descriptor was free (no
 			// watcher: every query rescans, also in the middle of whatever a caller is doing)
 			if len(devs) > 1 {
@@ -912,6 +922,19 @@ func (cacheStream) Execute(c Case) {
 				aux = append(aux, fmt.Sprintf("the same failing request twice: unresolved %q then %q", um, um2))
 			}
 			again("after a failed request")
+			// finally every Spec file goes away: after a refresh the very same request - into the very OCI spec that was
+			// injected into before - names every device as unresolvable and leaves that spec as it is
+			late, _ := c["latedirs"].(bool)
+			if len(req) > 0 && !auto && !late { // (a watching cache learns of the removal by itself, in its own time: C11)
+				_ = os.RemoveAll(filepath.Join(cacheRoot, "phys"))
+				_ = os.Remove(filepath.Join(cacheRoot, "asfile.json"))
+				_ = cache.Refresh()
+				bt := jsonImage(target)
+				ug, eg := cache.InjectDevices(target, req...)
+				if eg == nil || fmt.Sprint(ug) != fmt.Sprint(req) || jsonImage(target) != bt {
+					aux = append(aux, fmt.Sprintf("after all Spec files were removed: request %q into the OCI spec used before: unresolved %q, error %v, OCI spec modified %v", req, ug, eg != nil, jsonImage(target) != bt))
+				}
+			}
 		}
 		obs["aux"] = aux
 	}
